@@ -430,6 +430,10 @@ func init() {
 		{Name: "codec-race", Build: "race", N: tierN(3000, 300000), Case: c01Tree},
 		{Name: "transcode-race", Build: "race", N: tierN(2000, 150000), Case: c08One},
 		{Name: "fold-race", Build: "race", N: tierN(2000, 200000), Case: c12Generated},
+		// the fold fast paths are selected by type shape: the zoo, the tag sweep and the registered folders too
+		{Name: "fold-zoo-race", Build: "race", N: tierN(3000, 200000), Case: c12Zoo},
+		{Name: "fold-sweep-race", Build: "race", N: tierN(len(c12FieldKinds)*len(c12Tags)*4*3, len(c12FieldKinds)*len(c12Tags)*4*3*4), Case: c12Sweep},
+		{Name: "fold-registered-race", Build: "race", N: tierN(1500, 60000), Case: c12Registered},
 	}
 	asan := []*run.Suite{
 		{Name: "alias-asan", Build: "asan", N: tierN(0, 150000), Case: c15Alias},
